@@ -293,6 +293,12 @@ impl CreditUser {
     pub(crate) fn verif_available(&self) -> Option<u32> {
         self.channel.upgrade().map(|channel| channel.lock().unwrap().credits)
     }
+
+    /// A probe returning the available credits that can be used while a send is in progress.
+    pub(crate) fn verif_probe(&self) -> impl Fn() -> Option<u32> + Send + Sync + 'static {
+        let channel = self.channel.clone();
+        move || channel.upgrade().map(|channel| channel.lock().unwrap().credits)
+    }
 }
 
 #[cfg(feature = "verif")]
@@ -304,5 +310,16 @@ impl ChannelCreditReturner {
             (monitor.used, monitor.limit)
         });
         (monitor, self.to_return)
+    }
+
+    /// A probe returning (used, limit) that can be used while a receive is in progress.
+    pub(crate) fn verif_probe(&self) -> impl Fn() -> Option<(u32, u32)> + Send + Sync + 'static {
+        let monitor = self.monitor.clone();
+        move || {
+            monitor.upgrade().map(|monitor| {
+                let monitor = monitor.lock().unwrap();
+                (monitor.used, monitor.limit)
+            })
+        }
     }
 }
